@@ -13,18 +13,29 @@ import odl
 from odl.util import numerics
 
 from symnp.ctx import flat
+from symnp.larr import LArr, LProxy, both, ite
+from symnp.scalars import SB, SV
 
 EXPLANATION = ('C16: resize_array / ResizingOperator are executed on arrays of solver variables; for every '
                '(old shape, new shape, offset, pad mode, direction) in the bounded family each output entry must '
                'equal the index-map reference for all contents and pad constants; forward/adjoint transposition, '
-               'crop-after-extend identity and the weighted adjoint identity are decided as identities.')
+               'crop-after-extend identity and the weighted adjoint identity are decided as identities.  '
+               'anylen/*: the same real resize_array runs once on 1-d arrays whose LENGTHS and OFFSET are solver '
+               'integers (symnp/larr.py: contents are a function of the index, slices follow slice.indices, '
+               'assignments become ite-updates); the entry at a symbolic position must equal the named rule, so '
+               'the index arithmetic of _intersection_slice_tuples / _padding_slices_inner / _padding_slices_outer / '
+               '_apply_padding is decided for every length, offset and position (linear integer arithmetic with '
+               'uninterpreted content functions), and illegal padding lengths must raise ValueError.')
 BOUNDS = {
-    'quick': {'ndim': '1-2', 'old_lengths_1d': '1..5', 'new_lengths_1d': '1..6', 'offsets': 'all legal (and the '
+    'quick': {'anylen': 'lengths n, m >= 0, offset >= 0 and position unbounded integers (1-d)', 'ndim': '1-2', 'old_lengths_1d': '1..5', 'new_lengths_1d': '1..6', 'offsets': 'all legal (and the '
               'illegal ones must raise ValueError)', 'modes': 5, 'directions': 2, 'shapes_2d': '6 shape pairs'},
-    'thorough': {'ndim': '1-3', 'old_lengths_1d': '1..6', 'new_lengths_1d': '1..8', 'offsets': 'all',
+    'thorough': {'anylen': 'lengths n, m >= 0, offset >= 0 and position unbounded integers (1-d)', 'ndim': '1-3', 'old_lengths_1d': '1..6', 'new_lengths_1d': '1..8', 'offsets': 'all',
                  'modes': 5, 'directions': 2, 'shapes_2d': 'all pairs with lengths 1..4 (seeded subset of offsets)'},
 }
-OUTSIDE = ['floating-point rounding (order1 slopes are exact in the reals)', 'lengths above the bound',
+OUTSIDE = ['floating-point rounding (order1 slopes are exact in the reals)',
+           'lengths above the bound for ndim >= 2, for ResizingOperator and for the adjoint direction of order0 / '
+           'order1 (reductions over a symbolic length are not encoded); 1-d resize_array forward in all five modes '
+           'and adjoint in constant / periodic / symmetric is decided for every length (anylen/*)',
            'integer-dtype truncation of pad_const']
 ASSUMPTIONS = []
 EXHAUSTIVE = True
@@ -161,12 +172,26 @@ def configs(tier, seed):
                              ((2, 3), (2, 5)), ((3, 2), (3, 5))]):
             out.append(('op/%s/%s->%s' % (mode, 'x'.join(map(str, shp)), 'x'.join(map(str, newshp))),
                         dict(kind='op', mode=mode, direction='forward', old=list(shp), new=list(newshp))))
+    # ---- every length at once: symbolic lengths n, m and offset (symnp/larr.py), 1-d
+    for mode in MODES:
+        for regime in ('extend', 'restrict', 'same'):
+            out.append(('anylen/%s/forward/%s' % (mode, regime),
+                        dict(kind='anylen', mode=mode, direction='forward', regime=regime)))
+        out.append(('anylen/%s/adjoint/of-restriction' % mode,
+                    dict(kind='anylen', mode=mode, direction='adjoint', regime='of-restriction')))
+        if mode in ('constant', 'periodic', 'symmetric'):
+            out.append(('anylen/%s/adjoint/of-extension' % mode,
+                        dict(kind='anylen', mode=mode, direction='adjoint', regime='of-extension')))
+        if mode != 'constant':
+            out.append(('anylen/%s/forward/illegal-raises' % mode,
+                        dict(kind='anylen', mode=mode, direction='forward', regime='illegal')))
     return out
 
 
 def canaries(tier, seed):
     return [('canary/ra/order1/forward', dict(kind='ra', mode='order1', direction='forward', old=[3], new=[5])),
-            ('canary/op/symmetric', dict(kind='op', mode='symmetric', direction='forward', old=[3], new=[5]))]
+            ('canary/op/symmetric', dict(kind='op', mode='symmetric', direction='forward', old=[3], new=[5])),
+            ('canary/anylen/symmetric', dict(kind='anylen', mode='symmetric', direction='forward', regime='extend'))]
 
 
 # -------------------------------------------------------------------- case
@@ -182,7 +207,118 @@ def _np_pad_crosscheck(ctx, n, m, off, mode):
     ctx.fact('oracle=np.pad', np.allclose(ref, exp), 'reference disagrees with numpy.pad(%s)' % npmode)
 
 
-def case(ctx, kind, mode, direction, old, new, dtype='float64', max_offsets=None):
+def _any_reference(mode, n, m, off, d, f, c):
+    """Forward extension rule at position d of the large array, for symbolic or concrete integers
+    (legal padding lengths assumed): value of the small array f at the index the rule names."""
+    j = d - off
+    inside = both(j >= 0, j < n)
+    if mode == 'constant':
+        left = right = c
+    elif mode == 'periodic':
+        left, right = f(j + n), f(j - n)
+    elif mode == 'symmetric':
+        left, right = f(-j), f(2 * (n - 1) - j)
+    elif mode == 'order0':
+        left, right = f(0), f(n - 1)
+    else:
+        left = f(0) + j * (f(1) - f(0))
+        right = f(n - 1) + (j - (n - 1)) * (f(n - 1) - f(n - 2))
+    return ite(inside, f(j), ite(j < 0, left, right))
+
+
+def _any_adjoint_reference(mode, n, m, off, d, a):
+    """Adjoint of the extension n -> m at position d of the SMALL array: sum of the entries a(i) of the
+    large array over all i that the forward rule maps to d (transpose of the index map)."""
+    val = a(off + d)
+    if mode == 'periodic':
+        il, ir = off + d - n, off + d + n
+        val = val + ite(both(il >= 0, il < off), a(il), 0) + ite(both(ir >= off + n, ir < m), a(ir), 0)
+    elif mode == 'symmetric':
+        il, ir = off - d, off + 2 * (n - 1) - d
+        val = val + ite(both(il >= 0, il < off), a(il), 0) + ite(both(ir >= off + n, ir < m), a(ir), 0)
+    return val
+
+
+def _anylen(ctx, mode, direction, regime):
+    """resize_array on 1-d arrays whose lengths and offset are solver integers."""
+    bump = 1 if ctx.canary else 0
+    n = ctx.integer('n', 0, None, default=3)          # length of the smaller array
+    m = ctx.integer('m', 0, None, default=7)          # length of the larger array
+    off = ctx.integer('off', 0, None, default=2)
+    d = ctx.integer('d', 0, None, default=5)          # the position of the result that is examined
+    f = ctx.uf('f', 1)                                # contents of the input array
+    g = ctx.uf('g', 1)                                # previous contents of fresh output arrays
+    c = ctx.real('c') if (mode == 'constant' and direction == 'forward') else 0
+    pl, pr = off, m - n - off
+    if regime == 'same':
+        ctx.assume(m == n)
+    else:
+        ctx.assume(n < m)
+        ctx.assume(off <= m - n)
+    legal_sym = {'constant': True, 'periodic': both(pl <= n, pr <= n), 'symmetric': both(pl < n, pr < n),
+                 'order0': n >= 1, 'order1': n >= 2}[mode]
+    ext = (direction == 'forward' and regime in ('extend', 'illegal')) or regime == 'of-extension'
+    if regime == 'illegal':
+        ctx.assume(~legal_sym if isinstance(legal_sym, SB) else (not legal_sym))
+    elif ext and legal_sym is not True:
+        ctx.assume(legal_sym)
+    if regime in ('extend', 'illegal', 'of-restriction', 'same'):
+        n_in, n_out = n, m                            # small -> large
+    else:
+        n_in, n_out = m, n                            # large -> small
+    if regime == 'same':
+        ctx.assume(off == 0)
+    ctx.assume(d < n_out)
+
+    if ctx.sym:
+        arr = LArr(n_in, lambda i: f(i))
+        real_np, real_conv = numerics.np, numerics.safe_int_conv
+        numerics.np = LProxy(real_np, g)
+        numerics.safe_int_conv = lambda x: x if isinstance(x, SV) and x.is_integer() else real_conv(x)
+        try:
+            if regime == 'illegal':
+                ctx.expect_raises('illegal-raises', ValueError,
+                                  lambda: numerics.resize_array(arr, (n_out,), offset=[off], pad_mode=mode,
+                                                                pad_const=c, direction=direction))
+                return
+            res = numerics.resize_array(arr, (n_out,), offset=[off], pad_mode=mode, pad_const=c, direction=direction)
+            got = res.at(d)
+            same_len = bool(res.shape[0] == n_out)
+            untouched = arr.at(d) if regime in ('of-extension',) else None
+        finally:
+            numerics.np, numerics.safe_int_conv = real_np, real_conv
+    else:
+        arr = np.array([f(i) for i in range(n_in)], dtype=float)
+        keep = arr.copy()
+        if regime == 'illegal':
+            ctx.expect_raises('illegal-raises', ValueError,
+                              lambda: numerics.resize_array(arr, (n_out,), offset=[off], pad_mode=mode,
+                                                            pad_const=c, direction=direction))
+            return
+        res = numerics.resize_array(arr, (n_out,), offset=[off], pad_mode=mode, pad_const=c, direction=direction)
+        got = res[d]
+        same_len = res.shape == (n_out,)
+        ctx.fact('input-unchanged', np.array_equal(arr, keep))
+    ctx.fact('shape', same_len)
+    if direction == 'forward':
+        if regime in ('extend',):
+            ref = _any_reference(mode, n, m, off, d, f, c)
+        elif regime == 'restrict':
+            ref = f(d + off)
+        else:
+            ref = f(d)
+    else:
+        if regime == 'of-restriction':                # adjoint of a restriction = zero extension
+            j = d - off
+            ref = ite(both(j >= 0, j < n), f(j), 0)
+        else:
+            ref = _any_adjoint_reference(mode, n, m, off, d, f)
+    ctx.eq('rule-at-any-position', got, ref + bump)
+
+
+def case(ctx, kind, mode, direction, old=None, new=None, dtype='float64', max_offsets=None, regime=None):
+    if kind == 'anylen':
+        return _anylen(ctx, mode, direction, regime)
     old, new = tuple(old), tuple(new)
     nd = len(old)
     offs = list(itertools.product(*[offsets(n, m) for n, m in zip(old, new)]))
